@@ -17,6 +17,8 @@ REFUSAL_RE = re.compile(r"power of (two|2)|can't be used|cannot be used|only wor
                         r"|works? only|too small|at least|No implementation|multiple of|divisible", re.I)
 
 
+# message-less guards: `xbt_assert(pof2 == comm_size)`, `xbt_assert(recvcounts[i] == recvcounts[i+1])` in src/smpi/colls
+ASSERT_GUARD_RE = re.compile(r"src/smpi/colls/\S+: \[root/CRITICAL\] Assertion [^|]*\b(pof2|comm_size|num_procs|nprocs|recvcounts|recvcount|sendcount|count)\b[^|]* failed")
 GLIBC_RE = re.compile(r"malloc|free\(\)|corrupted|munmap_chunk|double free|invalid (next )?size|realloc\(\)|invalid pointer")
 
 
@@ -139,7 +141,12 @@ class Run:
             return ("bad", "partial-refusal", "only ranks %s threw: %s" % ([i for i, e in enumerate(excs) if e], [e for e in excs if e][0]))
         rcs = sorted(set(r["rc"] for r in recs))
         if rcs != [0]:
-            return ("bad", "error-code", "return codes %s" % rcs)
+            # an error code returned by every rank with every buffer untouched is a refusal too (alltoall 2dmesh/3dmesh: MPI_ERR_OTHER)
+            untouched = all(r["rcrc"] == coll.crc(P.R0[cr], None if P.rcheck is None else P.rcheck[cr]) and r["scrc"] == coll.crc(P.S[cr])
+                            for cr, r in enumerate(recs)) if call["k"] != "barrier" else True
+            if len(rcs) == 1 and untouched:
+                return ("refused", "error-code", "every rank returned error code %d" % rcs[0])
+            return ("bad", "error-code", "return codes %s%s" % (rcs, "" if untouched else " and buffers modified"))
         if any(not r["guards"] for r in recs):
             return ("bad", "guard-overrun", "ranks %s wrote outside their buffers" % [i for i, r in enumerate(recs) if not r["guards"]])
         if call.get("nb"):
@@ -218,12 +225,13 @@ class Run:
         if res.crash is not None:
             s = res.crash["sig"]
             if s == 6:
-                lines = [l for l in res.rr.err.splitlines() if l.strip() and "Switch to algorithm" not in l]
-                text = " ".join(lines[-8:])
+                text = fatal_message(res.rr.err)
                 if GLIBC_RE.search(text):
                     return "crash-memory"       # glibc detected a damaged heap
                 if REFUSAL_RE.search(text) and "IMPOSSIBLE" not in text:
                     return "refusal-abort"
+                if ASSERT_GUARD_RE.search(text):
+                    return "refusal-abort"     # xbt_assert on the communicator size / the counts at the top of an algorithm
                 return "abort"
             return {11: "crash-memory", 7: "crash-memory", 8: "crash-sigfpe", 4: "crash-sigill"}.get(s, "crash-sig%d" % s)
         return {"deadlock": "deadlock", "cpu-exceeded": "nontermination", "bad-case": "crash-memory"}.get(fail[0], fail[0])
@@ -284,7 +292,8 @@ class Run:
             if not todo[p]:
                 del todo[p]
         for (sig, ci), ps in sorted(groups.items()):
-            for p in sorted(set([min(ps), max(ps)])):
+            everything = sig.endswith(":runs-every-algorithm")      # the `automatic` pseudo-algorithms: smallest size only
+            for p in sorted(set([min(ps)] if everything else [min(ps), max(ps)])):
                 self.isolate(p, ci, "quarantined", False, False)
             if len(ps) > 2:
                 self.oc.labels.append("known-fatal-domain:not-run-at-every-size")
@@ -371,9 +380,9 @@ class Run:
                 seen.add((p, ci))
                 if kind == "mismatch" and not fail:
                     # wrong buffers inside the failure domain of a known finding: reported as such, without the isolated run
-                    e = known_domain(self.target(ci), self.features(p, ci), DATA_KINDS)
+                    e = known_domain(self.target(ci), self.features(p, ci), DATA_KINDS, unique=True)
                     if e is not None:
-                        self.bad(self.target(ci), [k for k in e["match"].get("kinds", ["wrong-result"]) if k in DATA_KINDS][0], p, ci,
+                        self.bad(self.target(ci), ([k for k in e["match"].get("kinds", []) if k in DATA_KINDS] or ["wrong-result"])[0], p, ci,
                                  "CRC of the buffers differ (not re-run alone: inside the domain of the known finding)")
                         continue
                 if self.isolate(p, ci, kind, unsafe, refused_before.get(p, 1 << 30) < ci) == "retry":
@@ -401,8 +410,8 @@ class Run:
             if kind == "refusal-abort":
                 self.refuse(p, "abort", res.rr.err, ci)
                 return
-            if kind.startswith(MEMORY_UNSAFE):
-                self.unsafe_calls.add(ci)
+            if kind.startswith(MEMORY_UNSAFE) and known_match(tgt, kind, self.features(p, ci)) is None:
+                self.unsafe_calls.add(ci)      # (a known finding declares its domain: the other sizes stay in the common program)
             if kind == "deadlock" and s[0] == "missing":
                 mem = coll.members_of(self.case, p)
                 recs = [res.get(w, where[(p, ci)]) for w in mem]
@@ -415,7 +424,7 @@ class Run:
             self.bad(tgt, kind, p, ci, (s[2] + " / " if s[0] == "bad" else "") + fatal_message(res.rr.err))
             return
         if s[0] == "bad":
-            if s[1].startswith(MEMORY_UNSAFE):
+            if s[1].startswith(MEMORY_UNSAFE) and known_match(tgt, s[1], self.features(p, ci)) is None:
                 self.unsafe_calls.add(ci)
             self.bad(tgt, s[1], p, ci, s[2])
         elif s[0] == "refused":
@@ -577,13 +586,14 @@ def known_match(tgt, kind, f):
     return None
 
 
-def known_domain(tgt, f, kinds):
-    """the known finding of one of these kinds whose failure domain contains this (size, call), or None"""
+def known_domain(tgt, f, kinds, unique=False):
+    """the known finding of one of these kinds whose failure domain contains this (size, call), or None (unique: also None when
+    several findings qualify: the precise kind of the failure is needed to tell them apart)"""
     name = "%s:%s" % tgt
-    for e in known_entries():
-        if any(k in kinds for k in e["match"].get("kinds", [])) and _in_domain(e, name, f):
-            return e
-    return None
+    found = [e for e in known_entries() if any(k in kinds or k == "*" for k in e["match"].get("kinds", [])) and _in_domain(e, name, f)]
+    if not found or (unique and len(found) > 1):
+        return None
+    return found[0]
 
 
 # ---------------------------------------------------------------------------------------------
@@ -591,11 +601,13 @@ def known_domain(tgt, f, kinds):
 COUNTS = [0, 1, 2, "p-1", "p", "p+1", "L"]
 
 
-def standard_calls(collective, n_main=24, n_other=6, seed=1):
+def standard_calls(collective, n_main=None, n_other=6, seed=1):
     """The deterministic call list of the fixed cases: every count class, type, operator and root class for the MPI functions of
     `collective`, interleaved with a few calls of other collectives (default algorithms, non-blocking forms)."""
     det = coll.Det(seed, sum(map(ord, collective)))
     kinds = coll.KINDS_OF_COLL.get(collective) or (coll.SINGLE + coll.KINDS)
+    if n_main is None:
+        n_main = {1: 24, 2: 32}.get(len(kinds), 3 * len(kinds))
     calls = []
     roots = [0, 1, -1, 0, 5, 2, -1, 0, 3, 7]
     for i in range(n_main):
@@ -604,7 +616,7 @@ def standard_calls(collective, n_main=24, n_other=6, seed=1):
         if collective == "nbc":
             c["nb"] = 0 if (k in coll.SINGLE and i % 3 == 0) else 1 + (i // len(kinds)) % 2
         if k != "barrier":
-            c["cnt"] = COUNTS[(i // len(kinds)) % len(COUNTS)] if i < 2 * len(COUNTS) * len(kinds) else det.next(40)
+            c["cnt"] = COUNTS[(i // len(kinds) + i) % len(COUNTS)]
             if k in coll.REDUCTIONS:
                 c["ty"], c["op"] = coll.RED_PAIRS[(i * 5 + i // 7) % len(coll.RED_PAIRS)]
             else:
